@@ -163,13 +163,25 @@ CHECKS = {
         "quick": {"shards": 16, "rounds": 1, "checks": 2, "timeout": 1500},
         "thorough": {"shards": 16, "rounds": 5, "checks": 2, "timeout": 3000},
         "shrinktime": "150s",
-        "assumptions": [],
+        "assumptions": [
+            "bounded-time statements: every primary client call returns within 10 s (measured normal: < 10 ms; up to 1.1 s while a healthy replica sits in its 1 s reconnect back-off, see notes), the faulty session leaves GetNodeInfo within 10 x the configured heartbeat timeout after the workload, healthy replicas converge within 60 s + 3 s per 100 steps",
+            "faults are injected at application / TCP-proxy level on loopback: 'cut without FIN' = a user-space proxy that stops reading and forwarding while all sockets stay open; packet loss below TCP is not modelled",
+            "clause 2 (dropped from the topology) is judged for replicas that are gone or silent for good (never reads, blackholed, reset, never acknowledges); a slow but live replica is observed only",
+            "primary, replicas and fault injectors run in one child process; engines use a 64 MiB memtable so that no log rotation happens (rotation is C14's open finding D18)",
+            "the verdict depends on goroutine and network scheduling; a saved case is re-executed 3 times side by side by the replay tier",
+        ],
     },
     "C16": {
         "level": "exploration",
-        "quick": {"shards": 16, "rounds": 1, "checks": 100, "timeout": 900},
-        "thorough": {"shards": 16, "rounds": 4, "checks": 500, "timeout": 3000},
-        "assumptions": [],
+        "quick": {"shards": 16, "rounds": 1, "checks": 600, "timeout": 900},
+        "thorough": {"shards": 16, "rounds": 8, "checks": 1000, "timeout": 3000},
+        "assumptions": [
+            "the API surface is enumerated at run time by reflection (interfaces.Engine minus Close, interfaces.Transaction, pb.KevoService_ServiceDesc); service handlers are invoked in process through the descriptor's handler functions (no network)",
+            "replicated operations are applied by one goroutine through replication.EngineApplier.Apply and the facade's PutInternal/DeleteInternal/ApplyBatchInternal; merge entries are not generated (the engine never writes them)",
+            "arguments respect the callers' preconditions: non-empty keys at engine level; mutator-table calls get valid requests (key 1-4096 bytes, at least one operation, a transaction begun with read_only=false) so that the only reason to refuse them is read-only mode",
+            "reads made while an apply is in flight are judged against the set of values the key held during that phase (single writer); equality with the model is demanded at the barriers",
+            "manager cases use the configuration cmd/kevo builds (Enabled, ForceReadOnly=true) with a 200 ms dial timeout towards an address where nothing listens",
+        ],
     },
     "C17": {
         "level": "exploration",
